@@ -333,7 +333,13 @@ func (p *flagParser) parseStringDQuote() (string, error) {
 		}
 
 		i += off
-		if in[i-1] != '\\' {
+		// the quote closes the string unless it is escaped, i.e. preceded by an
+		// odd number of backslashes
+		n := 0
+		for j := i - 1; j >= 1 && in[j] == '\\'; j-- {
+			n++
+		}
+		if n%2 == 0 {
 			break
 		}
 		off = i + 1
